@@ -59,6 +59,8 @@ def effect_trace(P, b):
 
 def run(chk, ctx):
     P = Prog(ctx["facts"])
+    from .iter_rules import plumbing_rule
+    plumbing_rule(chk, P, {"TestCase": ("input_indices", "expected_indices"), "DataRowIteratorTestData": ("signals", "input_indices", "expected_indices")})   # what the parser / the binding produced is what runs
     from . import eqrules
     eqrules.require(chk, P, ["stmt::DataEntry"], "`entry == &DataEntry::X` / `== &DataEntry::C` select exactly the X / C entries")
     eqrules.require_clone(chk, P, ["stmt::DataEntries"], "the copies pushed by expand_x / expand_c equal the row they were cloned from (entries, line, update_output)")
